@@ -165,6 +165,10 @@ func (te *TwitterExtractor) getTweetIdFromURL(tweetURL string) string {
 	for i := len(pathParts) - 1; i >= 0; i-- {
 		part := strings.TrimSpace(pathParts[i])
 		if part != "" {
+			// The keyword in front of the ID is not an ID
+			if part == "status" || part == "statuses" {
+				return ""
+			}
 			return part
 		}
 	}
